@@ -158,3 +158,19 @@ def identifier_with_whitespace_emitted_verbatim(v):
     d = v.get("detail", {})
     return v.get("mechanism") == "rtlil-does-not-parse" and d.get("whitespace_name") is True and \
         ("bad wire name" in str(d.get("error")) or "junk" in str(d.get("error")) or "bad" in str(d.get("error")))
+
+
+@predicate
+def clock_constraint_uses_undeduplicated_port_name(v):
+    """F24: the vendor templates write port clock constraints under `port.name`, the pin constraints under the
+    name the design gave the port after de-duplicating top-level names.  Record structure: a clock-line
+    violation of a plan whose platform table contains the deliberately colliding resource pair, on exactly the
+    colliding generated port name (with or without the `$n` suffix of the renamed twin)."""
+    import re
+    d = v.get("detail", {})
+    col = (d.get("table") or {}).get("colliding")
+    if not col or v.get("mechanism") not in ("constraint-file-clock-constrained-twice", "constraint-file-clock-on-undeclared-port",
+                                            "constraint-file-clock-wrong-frequency", "constraint-file-declared-clock-missing"):
+        return False
+    base = f"bus_{col[0]}__d_1__io"
+    return re.sub(r"\$\d+$", "", d.get("port", "")) == base
